@@ -23,12 +23,13 @@ VARIABLES l,        \* next line
           base,     \* C23: denotation of the open query
           req,      \* C23: [use, cols, rev]
           hcols,    \* C23: header columns of the open query (order of row values)
+          qkeys,    \* C23: Keys() reported by the open query
           selon, sel,   \* C23: current Select
           known, seq,   \* C23: forward sequence of the current selection
           st, pos       \* C23: cursor state
 
-tvars == <<l, db, base, req, hcols, selon, sel, known, seq, st, pos>>
-cvars == <<base, req, hcols, selon, sel, known, seq, st, pos>>
+tvars == <<l, db, base, req, hcols, qkeys, selon, sel, known, seq, st, pos>>
+cvars == <<base, req, hcols, qkeys, selon, sel, known, seq, st, pos>>
 
 Ev == Log[l]
 IsEvent(e) == l <= NLog /\ Ev.e = e /\ l' = l + 1
@@ -36,7 +37,7 @@ IsEvent(e) == l <= NLog /\ Ev.e = e /\ l' = l + 1
 NoDb == [n \in {} |-> 0]
 NoReq == [use |-> "none", cols |-> <<>>, rev |-> FALSE]
 
-CInit == /\ base = {} /\ req = NoReq /\ hcols = <<>> /\ selon = FALSE /\ sel = <<>>
+CInit == /\ base = {} /\ req = NoReq /\ hcols = <<>> /\ qkeys = <<>> /\ selon = FALSE /\ sel = <<>>
          /\ known = FALSE /\ seq = <<>> /\ st = "rewound" /\ pos = 0
 
 TraceInit == HWInit /\ l = 1 /\ db = NoDb /\ CInit
@@ -51,7 +52,7 @@ DbOf(tables) ==
 
 TrReset == /\ IsEvent("Reset")
            /\ db' = NoDb
-           /\ base' = {} /\ req' = NoReq /\ hcols' = <<>> /\ selon' = FALSE /\ sel' = <<>>
+           /\ base' = {} /\ req' = NoReq /\ hcols' = <<>> /\ qkeys' = <<>> /\ selon' = FALSE /\ sel' = <<>>
            /\ known' = FALSE /\ seq' = <<>> /\ st' = "rewound" /\ pos' = 0
 
 TrDb == /\ IsEvent("Db")
@@ -68,7 +69,7 @@ TrQuery ==
        IN /\ Len(Ev.rows) > 0 => Range(Ev.cols) = Cols(Ev.ast, db)
           /\ NoDups(rows)
           /\ Range(rows) = Denote(Ev.ast, db)
-    /\ UNCHANGED <<db, base, req, hcols, selon, sel, known, seq, st, pos>>
+    /\ UNCHANGED <<db, base, req, hcols, qkeys, selon, sel, known, seq, st, pos>>
 
 -----------------------------------------------------------------------------
 (* C23 *)
@@ -82,6 +83,7 @@ TrOpen ==
           /\ base' = B
     /\ req' = [use |-> Ev.use, cols |-> Ev.ocols, rev |-> Ev.rev]
     /\ hcols' = Ev.cols
+    /\ qkeys' = Ev.keys
     /\ selon' = FALSE /\ sel' = <<>> /\ known' = FALSE /\ seq' = <<>>
     /\ st' = "rewound" /\ pos' = 0
     /\ UNCHANGED db
@@ -100,12 +102,12 @@ TrSeq ==
           /\ OrderOK(s)
           /\ seq' = s
     /\ known' = TRUE
-    /\ UNCHANGED <<db, base, req, hcols, selon, sel, st, pos>>
+    /\ UNCHANGED <<db, base, req, hcols, qkeys, selon, sel, st, pos>>
 
 TrRewind ==
     /\ IsEvent("Rewind")
     /\ st' = "rewound" /\ pos' = 0
-    /\ UNCHANGED <<db, base, req, hcols, selon, sel, known, seq>>
+    /\ UNCHANGED <<db, base, req, hcols, qkeys, selon, sel, known, seq>>
 
 TrGet ==
     /\ IsEvent("Get")
@@ -115,7 +117,7 @@ TrGet ==
        IN /\ IF nx.ret = 0 THEN ~Ev.has
              ELSE Ev.has /\ RowOf(hcols, Ev.row) = seq[nx.ret]
           /\ st' = nx.st /\ pos' = nx.pos
-    /\ UNCHANGED <<db, base, req, hcols, selon, sel, known, seq>>
+    /\ UNCHANGED <<db, base, req, hcols, qkeys, selon, sel, known, seq>>
 
 \* Select(sels) restricts and rewinds; Select(nil) (clear) removes the restriction
 TrSelect ==
@@ -126,16 +128,16 @@ TrSelect ==
     /\ sel' = Ev.sels
     /\ known' = FALSE /\ seq' = <<>>
     /\ st' = "rewound" /\ pos' = 0
-    /\ UNCHANGED <<db, base, req, hcols>>
+    /\ UNCHANGED <<db, base, req, hcols, qkeys>>
 
 \* Lookup returns the matching row or nothing, and rewinds
 TrLookup ==
     /\ IsEvent("Lookup")
     /\ Ev.err = ""
     /\ req.use = "unique"
-    /\ LookupOK(Ev.has, IF Ev.has THEN RowOf(hcols, Ev.row) ELSE <<>>, base, Ev.sels, Range(req.cols))
+    /\ LookupOK(Ev.has, IF Ev.has THEN RowOf(hcols, Ev.row) ELSE <<>>, base, Ev.sels, qkeys)
     /\ st' = "rewound" /\ pos' = 0
-    /\ UNCHANGED <<db, base, req, hcols, selon, sel, known, seq>>
+    /\ UNCHANGED <<db, base, req, hcols, qkeys, selon, sel, known, seq>>
 
 -----------------------------------------------------------------------------
 (* C24 *)
